@@ -85,10 +85,19 @@ pub fn a_isodate(v: &Value) -> iso::IsoDate {
     d.year = js::i(v, "y") as i32; d.month = js::i(v, "m") as u8; d.day = js::i(v, "d") as u8;
     d
 }
-/// f64 argument: an exact integer (int or big) or one of the strings "NaN", "inf", "-inf"
-pub fn a_f64(v: &Value) -> f64 {
-    match v.as_str() { Some("NaN") => f64::NAN, Some("inf") => f64::INFINITY, Some("-inf") => f64::NEG_INFINITY, Some(s) => panic!("f64 {}", s), None => f64_exact(v) }
+/// f64 argument: an exact integer (int or big); non-finite values travel out of band (see `special`)
+pub fn a_f64(v: &Value) -> f64 { f64_exact(v) }
+pub fn special(s: &str) -> f64 { match s { "NaN" => f64::NAN, "inf" => f64::INFINITY, "-inf" => f64::NEG_INFINITY, _ => panic!("special {}", s) } }
+/// `a[key]` = array of n exact integers; `a.special` = {"at": 1-based index, "val": "NaN"|"inf"|"-inf"} overrides one of them
+pub fn f_array(a: &Value, key: &str, n: usize) -> Vec<f64> {
+    let x = a[key].as_array().expect("number array");
+    assert!(x.len() == n, "array length");
+    let mut out: Vec<f64> = x.iter().map(f64_exact).collect();
+    if let Some(sp) = a.get("special") { out[js::i(sp, "at") as usize - 1] = special(js::s(sp, "val")); }
+    out
 }
+/// scalar with optional override `a.special.val`
+pub fn f_scalar(a: &Value, key: &str) -> f64 { match a.get("special") { Some(sp) => special(js::s(sp, "val")), None => f64_exact(&a[key]) } }
 pub fn a_ff(v: &Value) -> TemporalResult<FiniteF64> { FiniteF64::try_from(a_f64(v)) }
 
 pub fn unit_name(s: &str) -> Unit {
@@ -154,8 +163,13 @@ pub fn a_ptime(v: &Value) -> PartialTime {
         millisecond: opt_i(v, "millisecond").map(|x| x as u16), microsecond: opt_i(v, "microsecond").map(|x| x as u16), nanosecond: opt_i(v, "nanosecond").map(|x| x as u16) }
 }
 pub const PDUR_KEYS: [&str; 10] = ["years", "months", "weeks", "days", "hours", "minutes", "seconds", "milliseconds", "microseconds", "nanoseconds"];
+/// value of partial-duration field k: present number, or the out-of-band special {"key": k, "val": ...}
+pub fn pdur_field(v: &Value, k: &str) -> Option<f64> {
+    if let Some(sp) = v.get("special") { if js::s(sp, "key") == k { return Some(special(js::s(sp, "val"))); } }
+    match v.get(k) { Some(x) if !x.is_null() => Some(f64_exact(x)), _ => None }
+}
 pub fn a_pdur(v: &Value) -> TemporalResult<PartialDuration> {
-    let f = |k: &str| -> TemporalResult<Option<FiniteF64>> { match v.get(k) { Some(x) if !x.is_null() => Ok(Some(a_ff(x)?)), _ => Ok(None) } };
+    let f = |k: &str| -> TemporalResult<Option<FiniteF64>> { match pdur_field(v, k) { Some(x) => Ok(Some(FiniteF64::try_from(x)?)), None => Ok(None) } };
     Ok(PartialDuration { years: f("years")?, months: f("months")?, weeks: f("weeks")?, days: f("days")?, hours: f("hours")?, minutes: f("minutes")?,
         seconds: f("seconds")?, milliseconds: f("milliseconds")?, microseconds: f("microseconds")?, nanoseconds: f("nanoseconds")? })
 }
@@ -168,7 +182,8 @@ pub fn a_relto(v: &Value) -> TemporalResult<Option<RelativeTo>> {
 
 // ---------------------------------------------------------------- projections (core types, public getters)
 pub fn ji<T: Copy + Into<i64>>(v: &T) -> Value { int((*v).into()) }
-pub fn jo<T: Copy + Into<i64>>(v: &Option<T>) -> Value { match v { Some(x) => int((*x).into()), None => Value::Null } }
+/// Option<T> is projected as a 0/1-element array (TLC's JSON has no null)
+pub fn jo<T: Copy + Into<i64>>(v: &Option<T>) -> Value { match v { Some(x) => json!([int((*x).into())]), None => json!([]) } }
 pub fn jb(v: &bool) -> Value { json!(*v) }
 pub fn js_(v: &String) -> Value { json!(v) }
 pub fn j_i64(v: &i64) -> Value { big(*v as i128) }
@@ -187,8 +202,8 @@ pub fn j_zdt(z: &ZonedDateTime) -> Value {
     o["tz"] = json!(z.timezone().identifier().unwrap_or_else(|_| "?".into()));
     with_cal(o, z.calendar().identifier())
 }
-pub fn j_ozdt(z: &Option<ZonedDateTime>) -> Value { match z { Some(z) => j_zdt(z), None => Value::Null } }
+pub fn j_ozdt(z: &Option<ZonedDateTime>) -> Value { match z { Some(z) => json!([j_zdt(z)]), None => json!([]) } }
 pub fn j_ym(d: &PlainYearMonth) -> Value { with_cal(json!({"y": int(d.iso_year() as i64), "m": d.iso_month()}), d.calendar().identifier()) }
 pub fn j_md(d: &PlainMonthDay) -> Value { with_cal(json!({"y": int(d.iso_year() as i64), "m": d.iso_month(), "d": d.iso_day()}), d.calendar().identifier()) }
 pub fn j_sign(s: &Sign) -> Value { json!(*s as i8) }
-pub fn j_era<const N: usize>(e: &Option<TinyAsciiStr<N>>) -> Value { match e { Some(s) => json!(s.as_str()), None => Value::Null } }
+pub fn j_era<const N: usize>(e: &Option<TinyAsciiStr<N>>) -> Value { match e { Some(s) => json!([s.as_str()]), None => json!([]) } }
